@@ -201,7 +201,7 @@ static rc::Gen<ProgCase> genProg() {
   return rc::gen::exec([]() {
     ProgCase c;
     int kind = *rc::gen::weightedElement<int>({{6, EV_TIMER}, {2, EV_READ}, {1, EV_WRITE}, {1, EV_PROC}, {1, 4}, {1, 7}});
-    c.ident_kind = (kind == EV_READ || kind == EV_WRITE) ? *rc::gen::weightedElement<int>({{8, 0}, {1, 1}, {1, 2}})
+    c.ident_kind = (kind == EV_READ || kind == EV_WRITE) ? *rc::gen::weightedElement<int>({{8, 0}, {1, 1}, {1, 2}, {1, 4}, {1, 5}})
                                                          : *rc::gen::weightedElement<int>({{8, 3}, {1, 1}});
     c.cb_null = *rc::gen::weightedElement<int>({{12, 0}, {1, 1}});
     int nops = *range<int>(1, C06_MAX_OPS);
@@ -231,11 +231,12 @@ struct Cmd { int cmd = 0, ch = 0, outside = 0, flags = 0, arg = 0; };
 struct FireCase {
   int kind[C06_MAX_CH] = {0, 0, 0};
   int period[C06_MAX_CH] = {0, 0, 0};
+  int tid_of[C06_MAX_CH] = {0, 0, 0};  // timers: 0 own cookie, k+1 = identifier equals the descriptor number of channel k
   std::vector<Cmd> cmds;
   Bytes plan;
   std::string ser() const {
     Writer w;
-    w.iv("kind", {kind[0], kind[1], kind[2]}).iv("period", {period[0], period[1], period[2]}).i("ncmds", (long long)cmds.size());
+    w.iv("kind", {kind[0], kind[1], kind[2]}).iv("period", {period[0], period[1], period[2]}).iv("tid_of", {tid_of[0], tid_of[1], tid_of[2]}).i("ncmds", (long long)cmds.size());
     for (size_t i = 0; i < cmds.size(); i++) w.iv(("c" + std::to_string(i)).c_str(), {cmds[i].cmd, cmds[i].ch, cmds[i].outside, cmds[i].flags, cmds[i].arg});
     w.b("plan", plan);
     return w.str();
@@ -243,9 +244,9 @@ struct FireCase {
   static FireCase parse(const std::string &t) {
     Reader r(t);
     FireCase c;
-    auto k = r.iv("kind"), p = r.iv("period");
-    k.resize(3, 0); p.resize(3, 0);
-    for (int i = 0; i < 3; i++) { c.kind[i] = (int)k[i]; c.period[i] = (int)p[i]; }
+    auto k = r.iv("kind"), p = r.iv("period"), td = r.iv("tid_of");
+    k.resize(3, 0); p.resize(3, 0); td.resize(3, 0);
+    for (int i = 0; i < 3; i++) { c.kind[i] = (int)k[i]; c.period[i] = (int)p[i]; c.tid_of[i] = (int)td[i]; }
     int n = (int)r.i("ncmds");
     for (int i = 0; i < n; i++) {
       auto v = r.iv(("c" + std::to_string(i)).c_str());
@@ -275,7 +276,7 @@ static const char *cmdname(int c) {
 static Verdict run_fire(const FireCase &c) {
   c06b_case k;
   memset(&k, 0, sizeof k);
-  for (int i = 0; i < C06_MAX_CH; i++) { k.kind[i] = (uint8_t)c.kind[i]; k.period_ms[i] = (uint16_t)std::max(1, c.period[i]); }
+  for (int i = 0; i < C06_MAX_CH; i++) { k.kind[i] = (uint8_t)c.kind[i]; k.period_ms[i] = (uint16_t)std::max(1, c.period[i]); k.timer_ident_of[i] = (uint8_t)c.tid_of[i]; }
   k.ncmds = (uint8_t)std::min<size_t>(c.cmds.size(), C06_MAX_CMDS);
   k.plans.plan_len = (uint32_t)std::min<size_t>(c.plan.size(), TP_PLAN_MAX);
   memcpy(k.plans.plan, c.plan.data(), k.plans.plan_len);
@@ -406,6 +407,7 @@ static Verdict run_fire(const FireCase &c) {
     int used = 0;
     for (int j = 0; j < C06_MAX_CH; j++) used += c.kind[j] != 0;
     if (used >= 2) nt = true;
+    for (int j = 0; j < C06_MAX_CH; j++) if (c.kind[j] == 3 && c.tid_of[j]) label("timer_named_after_a_descriptor");
     PBT_REQUIRE(o.res.live_fds == o.base_live_fds, "descriptors left after deleting every registration and destroying the pool: " << o.res.live_fds << " (before: " << o.base_live_fds << ")");
     if (nt) nontrivial_cur();
     return Verdict::pass();
@@ -420,6 +422,11 @@ static rc::Gen<FireCase> genFire() {
     for (int i = 0; i < nch; i++) {
       c.kind[i] = *rc::gen::weightedElement<int>({{4, 1}, {2, 2}, {3, 3}, {1, 4}});
       c.period[i] = *range<int>(1, 12);
+    }
+    // a timer may be named after the descriptor number of a socket / pipe channel of the same thread
+    for (int i = 0; i < nch; i++) {
+      if (c.kind[i] != 3 || *range<int>(0, 1)) continue;
+      for (int j = 0; j < nch; j++) if (j != i && c.kind[j] != 3 && c.kind[j] != 0) { c.tid_of[i] = j + 1; break; }
     }
     int n = *range<int>(2, 14);
     for (int i = 0; i < n; i++) {
